@@ -18,7 +18,7 @@ import sys
 
 from lib import common as C
 
-FINDINGS = ["F10", "F10b", "F10c", "F10d", "F10e", "F10g", "F10i", "F10k"]   # order = bits of the `dmx` mask
+FINDINGS = ["F10", "F10b", "F10c", "F10d", "F10e", "F10g", "F10i", "F10k", "F10j"]   # order = bits of the `dmx` mask
 FINDING_TEXT = {
     "F10": "dd_ctor_dtor_name: strrchr(dd->new, ':') with dd->new == NULL (C1/D0 code before any name)",
     "F10b": "dd_special_name: strchr(T_type, '\\0') succeeds -> T_type_name[6] out of bounds",
@@ -28,6 +28,9 @@ FINDING_TEXT = {
     "F10g": "demangle_simple returns NULL when the parse succeeds without output",
     "F10i": "dd_discriminator: `_<digit>` read with dd_number swallows the digits of the following <source-name> "
             "(local class as parameter: name returned unchanged)",
+    "F10j": "dd_expression: the binary-operator loop skips every code with c0 == 'c' or c1 == 'v' (`dv`, `cm`, `co` "
+            "rejected) and takes `nw`/`na` for binary operators (function template with such an expression in its "
+            "signature: name returned unchanged)",
     "F10k": "dd_expr_primary: the hex digits of a floating-point literal (C++20 template argument) are not skipped "
             "(name returned unchanged)",
 }
@@ -108,7 +111,7 @@ def compiled_corpus(ctx, gen, nfiles, nfun, nrust):
     # templates whose signature keeps dependent expressions (X…E / DT…E)
     jobs = [(c, "gnu++17") for c in compilers] + ([("g++", "gnu++20")] if "g++" in compilers else [])
     for cxx, std in jobs:
-        src, linemap = gen.nttp_source(ctx.rng, cxx20=(std == "gnu++20"), with_float=finding_listed("F10k"))
+        src, linemap = gen.nttp_source(ctx.rng, cxx20=(std == "gnu++20"), with_float=finding_listed("F10k"), with_exprops=finding_listed("F10j"))
         path = os.path.join(d, "nttp-%s-%s.cpp" % (cxx, std))
         open(path, "w").write(src)
         obj = path[:-4] + ".o"
@@ -747,7 +750,8 @@ def run(ctx):
     open_findings = {f.get("id"): f for f in C.known_findings("C13")}
     reported = 0
     for fid, idxs in sorted(attributed.items(), key=lambda kv: str(kv[0])):
-        idxs.sort(key=lambda i: (len(cases[i][0]), cases[i][0]))
+        # representative: a compiler-produced name whose expected result is known, if the class has one
+        idxs.sort(key=lambda i: (i not in monitor_fail, len(cases[i][0]), cases[i][0]))
         i = idxs[0]
         name = cases[i][0]
         obj = {
